@@ -141,8 +141,8 @@ def r3(ctx, prog):
                 def nonneg(e, pol):
                     if not isinstance(e, int):
                         return False
-                    c = rl.norm_cmp(f, e, pol)
-                    return c is not None and rl.var_of(f, c[1]) == d and c[0] in (">=", ">") and f.cv(c[2]) is not None and f.cv(c[2]) >= (0 if c[0] == ">=" else -1)
+                    c = rl.oriented(f, e, pol, rl.is_local(f, d), rl.is_const(f))
+                    return c is not None and c[0] in (">=", ">") and f.cv(c[2]) >= (0 if c[0] == ">=" else -1)
                 oklb = d is not None and f.cfg.guarded(f.cfg.pt(s), nonneg) is None
             if not okub and f.nodes[f.strip(base)]["k"] == "DeclRefExpr" and f.nodes[f.strip(base)]["n"] == "options":
                 continue   # decided by C20.R6 (guards / in-range constants at every call site)
@@ -166,13 +166,11 @@ def r3(ctx, prog):
             """fact  start + n < K  with K <= N"""
             if not isinstance(e, int):
                 return False
-            cc = rl.norm_cmp(f, e, pol)
+            cc = rl.oriented(f, e, pol, lambda j: f.nodes[j]["k"] == "BinaryOperator" and f.nodes[j]["op"] == "+" and f.cv(j) is None, rl.is_const(f))
             if cc is None or cc[0] not in ("<", "<="):
                 return False
-            l = f.strip(cc[1])
+            l = cc[1]
             k = f.cv(cc[2])
-            if k is None or f.nodes[l]["k"] != "BinaryOperator" or f.nodes[l]["op"] != "+":
-                return False
             ds = {rl.var_of(f, f.nodes[l]["c"][0]), rl.var_of(f, f.nodes[l]["c"][1])}
             return ds == {sd, nd} and (k <= N if cc[0] == "<" else k < N)
         def clamp(e):
@@ -180,10 +178,12 @@ def r3(ctx, prog):
             m = f.nodes[e]
             if m["k"] != "BinaryOperator" or m["op"] != "=" or rl.var_of(f, m["c"][0]) != nd:
                 return False
-            txt = rl.canon(f, m["c"][1]).replace(" ", "")
+            pm = {d: "$%d" % k for k, d in enumerate(f.pids)}
+            pm[sd] = "#start"
+            txt = rl.canon(f, m["c"][1], pm).replace(" ", "")
             import re
-            mm = re.fullmatch(r"\(\((\d+)-(\w+)\)-(\d+)\)", txt)
-            return bool(mm) and int(mm.group(1)) <= N and mm.group(2) == f.nodes[f.strip(f.nodes[sub]["c"][1])]["n"]
+            mm = re.fullmatch(r"\(\((\d+)-#start\)-(\d+)\)", txt)
+            return bool(mm) and int(mm.group(1)) <= N
         def eok(lab, p, q):
             return not any(within(e, pol) for e, pol in cfg.facts(lab))
         w = cfg.must_pass([cfg.entry], [cfg.pt(c)], clamp, edge_ok=eok)
@@ -191,8 +191,7 @@ def r3(ctx, prog):
         def start_lt(e, pol):
             if not isinstance(e, int):
                 return False
-            cc = rl.norm_cmp(f, e, pol)
-            return cc is not None and rl.var_of(f, cc[1]) == sd and cc[0] == "<" and f.cv(cc[2]) is not None and f.cv(cc[2]) <= N
+            return rl.establishes(f, e, pol, "<", rl.is_local(f, sd), rl.is_const(f, lambda v: v <= N))
         w = cfg.guarded(cfg.pt(c), start_lt)
         ctx.check(R, w is None, f.where(c), "copy into %s only when start < MAX (so MAX-start-1 cannot wrap)" % desc, key="C20.R3:mi_out_buf:start", witness=w)
     # buffered output (dynamic size): budget analysis over (point, remaining increments) states
@@ -260,8 +259,7 @@ def r4(ctx, prog):
             def lt_end(e, pol):
                 if not isinstance(e, int):
                     return False
-                c = rl.norm_cmp(f, e, pol)
-                return c is not None and c[0] == "<" and rl.var_of(f, c[1]) == d and rl.var_of(f, c[2]) == endp
+                return rl.establishes(f, e, pol, "<", rl.is_local(f, d), rl.is_local(f, endp))
             def eok(lab, p, q):
                 return not any(lt_end(e, pol) for e, pol in cfg.facts(lab))
             starts = [cfg.entry] + [cfg.after(m) for m in moves if m != a and not _inside(f, m, a)]
@@ -278,8 +276,8 @@ def r4(ctx, prog):
     def gt1(e, pol):
         if not isinstance(e, int):
             return False
-        c = rl.norm_cmp(f, e, pol)
-        return c is not None and rl.var_of(f, c[1]) == size and ((c[0] == ">" and f.cv(c[2]) == 1) or (c[0] == ">=" and f.cv(c[2]) == 2))
+        c = rl.oriented(f, e, pol, rl.is_local(f, size), rl.is_const(f))
+        return c is not None and ((c[0] == ">" and f.cv(c[2]) == 1) or (c[0] == ">=" and f.cv(c[2]) == 2))
     for a, lhs in st:
         if any(_inside(f, i, a) for i in incs):
             seen = cfg.reach([cfg.entry] + [cfg.after(d) for d in decs], edge_ok=lambda lab, p, q: not any(gt1(e, pol) for e, pol in cfg.facts(lab)))
@@ -336,8 +334,7 @@ def r4(ctx, prog):
     def fits(e, pol):
         if not isinstance(e, int):
             return False
-        c = rl.norm_cmp(ar, e, pol)
-        return c is not None and c[0] == "<" and rl.var_of(ar, c[2]) == ar.param_id(4) and all(ar.mentions_decl(c[1], ar.param_id(k)) for k in (1, 2, 3))
+        return rl.establishes(ar, e, pol, "<", lambda j: all(ar.mentions_decl(j, ar.param_id(k)) for k in (1, 2, 3)), rl.is_local(ar, ar.param_id(4)))
     for a, lhs, rhs, op in ar.stores():
         if ar.nodes[ar.strip(lhs)]["k"] == "ArraySubscriptExpr":
             w = cfg.guarded(cfg.pt(a), fits)
@@ -354,12 +351,10 @@ def _budget(f, fld_used, fld_cap, refill, extra, refill_budget, entry=-1, check_
     def guard_budget(lab):
         best = None
         for e, pol in cfg.facts(lab):
-            c = rl.norm_cmp(f, e, pol)
+            c = rl.oriented(f, e, pol, lambda j: f.mentions_field(j, fld_used), rl.is_field(f, fld_cap))
             if c is None or c[0] not in ("<", "<="):
                 continue
             l, r = c[1], c[2]
-            if not (f.mentions_field(l, fld_used) and rl.field_is(f, r, fld_cap)):
-                continue
             lj = f.strip(l)
             k = 0
             if N[lj]["k"] == "BinaryOperator" and N[lj]["op"] == "+":
@@ -418,15 +413,29 @@ def r5(ctx, prog):
     R = ctx.rule("C20.R5", "option parsing saturates instead of overflowing and a malformed value leaves the option at its default (init = DEFAULTED, value untouched)")
     f = prog.fn("mi_option_init")
     cfg = f.cfg
+    # the parser = mi_option_init and the private helpers it calls (the size arithmetic may live in either)
+    reg = prog.region("mi_option_init", cut=("mi_option_is_keyword", "mi_option_has_size_in_kib"))
     # multiplications of the parsed size go through mi_mul_overflow
-    muls = [x for x in f.all(kind="BinaryOperator") if f.nodes[x]["op"] == "*" and f.cv(x) is None]
-    ctx.check(R, not muls, f.where(), "no unchecked multiplication of the parsed value %s" % [f.loc(m) for m in muls], key="C20.R5:mul")
-    ctx.check(R, sum(1 for _ in f.calls("mi_mul_overflow")) >= 3, f.where(), "K/M/G/T suffixes multiply with mi_mul_overflow", key="C20.R5:mulov")
+    muls = [(g, x) for g in reg for x in g.all(kind="BinaryOperator") if g.nodes[x]["op"] == "*" and g.cv(x) is None]
+    ctx.check(R, not muls, f.where(), "no unchecked multiplication of the parsed value %s" % [g.loc(m) for g, m in muls], key="C20.R5:mul")
+    ctx.check(R, sum(1 for g in reg for _ in g.calls("mi_mul_overflow")) >= 3, f.where(), "K/M/G/T suffixes multiply with mi_mul_overflow", key="C20.R5:mulov")
     maxalloc = prog.const("MI_MAX_ALLOC_SIZE")
-    ok = any(rl.cmp_parts(f, x) and rl.cmp_parts(f, x)[0] == ">" and f.cv(rl.cmp_parts(f, x)[2]) == maxalloc for x in f.all(kind="BinaryOperator"))
+    # an edge that establishes size > MI_MAX_ALLOC_SIZE leads, on every path, to a store of a constant that is in range
+    ok = False
+    for g in reg:
+        for p_, q, e, pol in rl.edges_with_fact(g, lambda e, pol, g=g: isinstance(e, int) and rl.establishes(g, e, pol, ">", lambda j: g.cv(j) is None, rl.is_const(g, lambda v: v == maxalloc))):
+            w = g.cfg.must_pass([q], g.cfg.exit_points(), lambda x, g=g: g.nodes[x]["k"] == "BinaryOperator" and g.nodes[x]["op"] == "=" and g.cv(g.nodes[x]["c"][1]) is not None and
+                                0 <= g.cv(g.nodes[x]["c"][1]) <= maxalloc)
+            ok = ok or w is None
     ctx.check(R, ok, f.where(), "size > MI_MAX_ALLOC_SIZE saturates", key="C20.R5:sat1")
     longmax = prog.const("LONG_MAX")
-    ok = any(rl.cmp_parts(f, x) and rl.cmp_parts(f, x)[0] == ">" and f.cv(rl.cmp_parts(f, x)[2]) == longmax for x in f.all())
+    ok = False
+    for g in reg:
+        for x in g.all(kind="ConditionalOperator"):
+            n = g.nodes[x]
+            for pol, br in ((True, n["then"]), (False, n["else"])):
+                if rl.establishes(g, n["cond"], pol, ">", lambda j: g.cv(j) is None, rl.is_const(g, lambda v: v == longmax)) and g.cv(br) == longmax:
+                    ok = True
     ctx.check(R, ok, f.where(), "size > LONG_MAX saturates to LONG_MAX", key="C20.R5:sat2")
     # malformed: *end != 0 edge: init = DEFAULTED on every path; value not changed except the verbose toggle that is restored
     def end_nonzero(e, pol):
@@ -532,8 +541,8 @@ def r6(ctx, prog):
             def upper(e, pol):
                 if not isinstance(e, int):
                     return False
-                c = rl.norm_cmp(f, e, pol)
-                return c is not None and rl.var_of(f, c[1]) == d and ((c[0] == "<" and f.cv(c[2]) is not None and f.cv(c[2]) <= last) or (c[0] == "<=" and f.cv(c[2]) is not None and f.cv(c[2]) < last))
+                c = rl.oriented(f, e, pol, rl.is_local(f, d), rl.is_const(f))
+                return c is not None and ((c[0] == "<" and f.cv(c[2]) <= last) or (c[0] == "<=" and f.cv(c[2]) < last))
             w = f.cfg.guarded(f.cfg.pt(s), upper)
             ok = w is None
             if not ok and d in f.pids and f.name.startswith("_mi_"):
